@@ -1,6 +1,7 @@
 // TARGA: gil writer (raw, bottom-left) + harness encoders for RLE and top-left origin.
 #include "iosim.hpp"
 #include "fmt_common.hpp"
+#include "iosim_rt.hpp"
 #include <boost/gil/extension/io/targa.hpp>
 
 namespace sim {
@@ -69,6 +70,32 @@ std::vector<Field> fields(Bytes const&)
 }
 long declared(Bytes const& b) { return b.size() < 16 ? -1 : (long)get16le(b, 12) * (long)get16le(b, 14); }
 
+Outcome roundtrip(Json const& plan)
+{
+    std::string v = plan.str("variant");
+    gil::image_write_info<Tag> info;
+    if (v == "rgb8") return RoundTrip<Tag, gil::rgb8_image_t, true>::run(plan, "tga", info);
+    if (v == "rgba8") return RoundTrip<Tag, gil::rgba8_image_t, true>::run(plan, "tga", info);
+    Outcome o; o.cls = "skipped:type"; return o;
+}
+
+Outcome paths(Json const& plan)
+{
+    std::string v = plan.str("variant");
+    Bytes bytes;
+    if (!make(v, (int)plan.num("w", 1), (int)plan.num("h", 1), (uint64_t)plan.num("cseed"), bytes)) { Outcome o; o.cls = "skipped:variant"; return o; }
+    using any_t = gil::any_image<gil::rgb8_image_t, gil::rgba8_image_t>;
+    static char const* const names[] = {"gray8", "rgb8", "rgba8"};
+    using P3 = gil::gray8_pixel_t; using P4 = gil::rgb8_pixel_t; using P5 = gil::rgba8_pixel_t;
+    PathsCfg cfg;
+    // targa/detail/scanline_read.hpp: "scanline reader cannot read this targa image type." (RLE) and
+    // "scanline reader cannot read targa files which have screen origin bit set."
+    cfg.scan_refused = v.find("rle") != std::string::npos || v.find("top") != std::string::npos;
+    bool a32 = v == "rgba8" || v.find("32") != std::string::npos;
+    if (a32) return PathsFor<Tag, gil::rgba8_image_t, any_t, gil::bgra8_image_t, P3, P4, P5>::run(plan, bytes, "tga", cfg, names);
+    return PathsFor<Tag, gil::rgb8_image_t, any_t, gil::bgr8_image_t, P3, P4, P5>::run(plan, bytes, "tga", cfg, names);
+}
+
 Format make_format()
 {
     Format f;
@@ -78,6 +105,8 @@ Format make_format()
     f.native_types = {"rgb8", "rgba8"};
     f.convert_types = {"gray8", "rgb8", "rgba8"};
     f.devices = {"FILE", "istream", "name"};
+    f.write_types = {"rgb8", "rgba8"};
+    f.roundtrip = roundtrip; f.paths = paths;
     f.make = make; f.read = read; f.fields = fields; f.declared_pixels = declared;
     return f;
 }
